@@ -226,12 +226,155 @@ Proof.
   eapply Permutation_in; [apply Permutation_sym; exact Hp|exact Hx].
 Qed.
 
+(* ---------- the second pass on a circular record (ring_merge) ---------- *)
+(* the core of the later one does not overlap the cutoff-extended location of the earlier one *)
+Definition apart (a b : proto * loc) : Prop := overlap (p_core (fst b)) (snd a) = false.
+(* ... for every pair of positions i < j *)
+Fixpoint fwd_apart (l : list (proto * loc)) : Prop :=
+  match l with
+  | [] => True
+  | x :: r => Forall (apart x) r /\ fwd_apart r
+  end.
+(* the location carried with a cluster is its core extended by its rule's cutoff *)
+Definition ext_ok (pl : proto * loc) : Prop :=
+  extend_location (p_core (fst pl)) (r_cut (nth_rule rules (p_rule (fst pl)))) N circular = Ok (snd pl).
+
+Lemma split_first_none {A} (p : A -> bool) : forall l,
+  split_first p l = None <-> Forall (fun y => p y = false) l.
+Proof.
+  induction l as [|y r IH]; cbn [split_first]; [split; [constructor|reflexivity]|].
+  destruct (p y) eqn:E.
+  - split; [discriminate|]. intro H. inversion H; subst. congruence.
+  - destruct (split_first p r) as [[[b z] a]|] eqn:Es.
+    + split; [discriminate|]. intro H. inversion H as [|? ? _ Hr]; subst.
+      apply IH in Hr. discriminate Hr.
+    + split; [|reflexivity]. intros _. constructor; [exact E|]. apply IH. reflexivity.
+Qed.
+
+Lemma split_first_some {A} (p : A -> bool) : forall l b y a,
+  split_first p l = Some (b, y, a) -> l = b ++ y :: a /\ p y = true /\ Forall (fun z => p z = false) b.
+Proof.
+  induction l as [|z r IH]; intros b y a H; cbn [split_first] in H; [discriminate H|].
+  destruct (p z) eqn:E.
+  - inversion H; subst. split; [reflexivity|]. split; [exact E|constructor].
+  - destruct (split_first p r) as [[[b' z'] a']|] eqn:Es; [|discriminate H].
+    inversion H; subst. destruct (IH b' y a eq_refl) as (-> & Hy & Hb).
+    split; [reflexivity|]. split; [exact Hy|]. constructor; assumption.
+Qed.
+
+(* no pair left <-> the pass finds nothing *)
+Lemma ring_once_none : forall l, ring_merge_once N circular rules l = Ok None <-> fwd_apart l.
+Proof.
+  induction l as [|x r IH]; cbn [ring_merge_once fwd_apart]; [split; [intros _; exact I|reflexivity]|].
+  destruct (split_first (fun y : proto * loc => overlap (p_core (fst y)) (snd x)) r) as [[[b y] a]|] eqn:Es.
+  - split.
+    + intro H. destruct (mpair (fst x) (fst y)) as [m|k]; cbn [bind] in H; [|discriminate H].
+      destruct (extend_location (p_core m) (r_cut (nth_rule rules (p_rule m))) N circular); cbn [bind] in H; discriminate H.
+    + intros [Hx _]. apply split_first_some in Es. destruct Es as (-> & Hy & _).
+      rewrite Forall_forall in Hx. pose proof (Hx y (in_elt y b a)) as Hxy. unfold apart in Hxy. congruence.
+  - apply split_first_none in Es. split.
+    + intro H. destruct (ring_merge_once N circular rules r) as [[r'|]|k] eqn:Er; cbn [bind] in H; try discriminate H.
+      split; [exact Es|]. apply IH. reflexivity.
+    + intros [_ Hr]. apply IH in Hr. rewrite Hr. reflexivity.
+Qed.
+
+(* what one merging round does: the first pair (i < j) with an overlap is merged into position i, position j goes *)
+Lemma ring_once_some : forall l l', ring_merge_once N circular rules l = Ok (Some l') ->
+  exists pre x b y a m ext, l = pre ++ x :: b ++ y :: a /\ l' = pre ++ (m, ext) :: b ++ a /\
+    overlap (p_core (fst y)) (snd x) = true /\ mpair (fst x) (fst y) = Ok m /\
+    extend_location (p_core m) (r_cut (nth_rule rules (p_rule m))) N circular = Ok ext.
+Proof.
+  induction l as [|x r IH]; intros l' H; cbn [ring_merge_once] in H; [discriminate H|].
+  destruct (split_first (fun y : proto * loc => overlap (p_core (fst y)) (snd x)) r) as [[[b y] a]|] eqn:Es.
+  - apply split_first_some in Es. destruct Es as (-> & Hy & _).
+    destruct (mpair (fst x) (fst y)) as [m|k] eqn:Em; cbn [bind] in H; [|discriminate H].
+    destruct (extend_location (p_core m) (r_cut (nth_rule rules (p_rule m))) N circular) as [ext|k] eqn:Ee;
+      cbn [bind] in H; [|discriminate H].
+    inversion H; subst l'. exists [], x, b, y, a, m, ext. repeat split; try reflexivity; assumption.
+  - destruct (ring_merge_once N circular rules r) as [[r'|]|k] eqn:Er; cbn [bind] in H; try discriminate H.
+    inversion H; subst l'. destruct (IH r' eq_refl) as (pre & x' & b & y & a & m & ext & -> & -> & Ho & Hm & He).
+    exists (x :: pre), x', b, y, a, m, ext. repeat split; try reflexivity; assumption.
+Qed.
+
+Lemma ring_once_length l l' : ring_merge_once N circular rules l = Ok (Some l') -> length l = S (length l').
+Proof.
+  intro H. destruct (ring_once_some _ _ H) as (pre & x & b & y & a & m & ext & -> & -> & _).
+  rewrite !app_length. cbn [length]. rewrite !app_length. cbn [length]. lia.
+Qed.
+
+Lemma ring_merge_apart fuel l : fwd_apart l -> ring_merge N circular rules fuel l = Ok l.
+Proof.
+  intro H. destruct fuel as [|f]; [reflexivity|]. cbn [ring_merge].
+  rewrite (proj2 (ring_once_none l) H). reflexivity.
+Qed.
+
+(* the pass ends with no pair left: afterwards no cluster's core overlaps the cutoff-extended core of a
+   cluster before it *)
+Lemma ring_merge_separated : forall fuel l l', (length l <= fuel)%nat ->
+  ring_merge N circular rules fuel l = Ok l' -> fwd_apart l'.
+Proof.
+  induction fuel as [|f IH]; intros l l' Hlen H; cbn [ring_merge] in H.
+  - inversion H; subst l'. destruct l; [exact I|cbn in Hlen; lia].
+  - destruct (ring_merge_once N circular rules l) as [[l2|]|k] eqn:Eo; cbn [bind] in H; [| |discriminate H].
+    + apply (IH l2 l'); [|exact H]. apply ring_once_length in Eo. lia.
+    + inversion H; subst l'. apply ring_once_none. exact Eo.
+Qed.
+
+(* an invariant of every element is kept when a merged cluster has it *)
+Lemma ring_merge_forall (P : proto * loc -> Prop) :
+  (forall x y m ext, P x -> P y -> mpair (fst x) (fst y) = Ok m ->
+     extend_location (p_core m) (r_cut (nth_rule rules (p_rule m))) N circular = Ok ext -> P (m, ext)) ->
+  forall fuel l l', Forall P l -> ring_merge N circular rules fuel l = Ok l' -> Forall P l'.
+Proof.
+  intro HP. induction fuel as [|f IH]; intros l l' Hl H; cbn [ring_merge] in H.
+  - inversion H; subst. exact Hl.
+  - destruct (ring_merge_once N circular rules l) as [[l2|]|k] eqn:Eo; cbn [bind] in H; [| |discriminate H].
+    + apply (IH l2 l'); [|exact H].
+      destruct (ring_once_some _ _ Eo) as (pre & x & b & y & a & m & ext & -> & -> & _ & Hm & He).
+      apply Forall_app in Hl. destruct Hl as [Hpre Hl]. inversion Hl as [|? ? Hx Hl2]; subst.
+      apply Forall_app in Hl2. destruct Hl2 as [Hb Hl3]. inversion Hl3 as [|? ? Hy Ha]; subst.
+      apply Forall_app. split; [exact Hpre|]. constructor; [exact (HP x y m ext Hx Hy Hm He)|].
+      apply Forall_app. split; assumption.
+    + inversion H; subst. exact Hl.
+Qed.
+
+Lemma ring_merge_length : forall fuel l l', ring_merge N circular rules fuel l = Ok l' ->
+  (length l' <= length l)%nat /\ ((1 <= length l)%nat -> (1 <= length l')%nat).
+Proof.
+  induction fuel as [|f IH]; intros l l' H; cbn [ring_merge] in H.
+  - inversion H; subst. split; [apply le_n|intro Hx; exact Hx].
+  - destruct (ring_merge_once N circular rules l) as [[l2|]|k] eqn:Eo; cbn [bind] in H; [| |discriminate H].
+    + destruct (IH l2 l' H) as [H1 H2]. pose proof (ring_once_length _ _ Eo) as Hl.
+      destruct (ring_once_some _ _ Eo) as (pre & x & b & y & a & m & ext & _ & E2 & _).
+      assert (1 <= length l2)%nat by (rewrite E2, app_length; cbn [length]; lia).
+      split; [lia|]. intros _. apply H2. assumption.
+    + inversion H; subst. split; [apply le_n|intro Hx; exact Hx].
+Qed.
+
+Lemma fwd_apart_split : forall l, fwd_apart l ->
+  forall l1 x l2 y l3, l = l1 ++ x :: l2 ++ y :: l3 -> apart x y.
+Proof.
+  intros l H l1. revert l H. induction l1 as [|z l1 IH]; intros l H x l2 y l3 E; subst l.
+  - destruct H as [Hx _]. rewrite Forall_forall in Hx. apply Hx. apply in_elt.
+  - destruct H as [_ Hr]. exact (IH _ Hr x l2 y l3 eq_refl).
+Qed.
+
+Lemma second_pass_cases (done kept : list (proto * loc)) :
+  (if circular then ring_merge N circular rules (length done) (rev done) else Ok (rev done)) = Ok kept ->
+  (circular = true /\ ring_merge N circular rules (length done) (rev done) = Ok kept) \/
+  (circular = false /\ kept = rev done).
+Proof.
+  intro H. destruct circular; [left; split; [reflexivity|exact H]|right; split; [reflexivity|]].
+  inversion H. reflexivity.
+Qed.
+
 Lemma merge_group_unfold key group :
   mgroup key group =
   match group with
   | [] | [_] => Ok (map fst group)
   | _ => do done <- fold_left mstep (sort_by (fun a b => key a <? key b) group) (Ok []);
-         Ok (map fst (rev done))
+         do kept <- (if circular then ring_merge N circular rules (length done) (rev done) else Ok (rev done));
+         Ok (map fst kept)
   end.
 Proof. reflexivity. Qed.
 
@@ -248,11 +391,17 @@ Proof.
   - inversion H; subst. apply (Hmap [a]). exact Hg.
   - destruct (fold_left mstep (sort_by (fun a0 b0 => key a0 <? key b0) (a :: b :: t)) (Ok [])) as [done|k] eqn:Ef;
       cbn [bind] in H; [|discriminate H].
-    inversion H; subst. apply Hmap.
     assert (Hd : all_rule ri done).
     { eapply fold_merge_all_rule; [constructor| |exact Ef].
       eapply all_rule_perm; [apply sort_perm|exact Hg]. }
-    unfold all_rule in *. rewrite Forall_forall in *. intros x Hx. apply Hd. apply in_rev. exact Hx.
+    assert (Hr : all_rule ri (rev done)).
+    { unfold all_rule in *. rewrite Forall_forall in *. intros x Hx. apply Hd. apply in_rev. exact Hx. }
+    destruct (if circular then ring_merge N circular rules (length done) (rev done) else Ok (rev done)) as [kept|k] eqn:Ek;
+      cbn [bind] in H; [|discriminate H].
+    inversion H; subst. apply Hmap.
+    destruct (second_pass_cases _ _ Ek) as [[_ Ek']|[_ ->]]; [|exact Hr]. clear Ek. rename Ek' into Ek.
+    refine (ring_merge_forall (fun pl => p_rule (fst pl) = ri) _ _ _ _ Hr Ek).
+    intros x y m ext Hx _ Hm _. cbn [fst]. rewrite (merge_pair_rule _ _ _ Hm). exact Hx.
 Qed.
 
 Definition with_ext (p : proto) : res (proto * loc) :=
@@ -402,12 +551,75 @@ Proof.
   - inversion H; subst. cbn. split; apply le_n.
   - destruct (fold_left mstep (sort_by (fun a0 b0 => key a0 <? key b0) (a :: b :: t)) (Ok [])) as [done|k] eqn:Ef;
       cbn [bind] in H; [|discriminate H].
-    inversion H; subst res. rewrite map_length, rev_length.
+    destruct (if circular then ring_merge N circular rules (length done) (rev done) else Ok (rev done)) as [kept|k] eqn:Ek;
+      cbn [bind] in H; [|discriminate H].
+    inversion H; subst res. rewrite map_length.
     destruct (fold_merge_length _ _ _ Ef) as [H1 H2].
     rewrite <- (Permutation_length (sort_perm (fun a0 b0 => key a0 <? key b0) (a :: b :: t))) in H1, H2.
-    cbn [length] in *. split.
-    + apply H2. cbn. apply le_n_S, Nat.le_0_l.
-    + exact H1.
+    assert (Hk : (length kept <= length done)%nat /\ ((1 <= length done)%nat -> (1 <= length kept)%nat)).
+    { destruct (second_pass_cases _ _ Ek) as [[_ Ek']|[_ ->]].
+      - destruct (ring_merge_length _ _ _ Ek') as [K1 K2]. rewrite rev_length in K1, K2. split; assumption.
+      - rewrite rev_length. split; [apply le_n|intro Hx; exact Hx]. }
+    destruct Hk as [K1 K2]. cbn [length] in *. split.
+    + apply K2. apply H2. cbn. apply le_n_S, Nat.le_0_l.
+    + eapply Nat.le_trans; [exact K1|exact H1].
+Qed.
+
+(* ---------- (M6) circular record: what is returned is pairwise apart ---------- *)
+Lemma merge_step_ext_ok done cl res :
+  Forall ext_ok done -> ext_ok cl -> mstep (Ok done) cl = Ok res -> Forall ext_ok res.
+Proof.
+  intros Hd Hc H. apply merge_step_cases in H. destruct H as [[-> ->]|H].
+  - constructor; [exact Hc|constructor].
+  - destruct H as (prev & prev_loc & rest & -> & [[_ ->]|[_ (m & ext & _ & He & ->)]]).
+    + constructor; [exact Hc|exact Hd].
+    + constructor; [exact He|exact (Forall_inv_tail Hd)].
+Qed.
+
+Lemma fold_merge_ext_ok : forall l done res,
+  Forall ext_ok done -> Forall ext_ok l -> fold_left mstep l (Ok done) = Ok res -> Forall ext_ok res.
+Proof.
+  induction l as [|cl l IH]; intros done res Hd Hl H; cbn [fold_left] in H.
+  - inversion H; subst. exact Hd.
+  - destruct (mstep (Ok done) cl) as [d'|k] eqn:Es.
+    + apply (IH d' res); [|exact (Forall_inv_tail Hl)|exact H].
+      exact (merge_step_ext_ok done cl d' Hd (Forall_inv Hl) Es).
+    + rewrite fold_merge_err in H. discriminate H.
+Qed.
+
+(* merge_over_origin on a circular record, one rule's clusters, each carried with its core extended by the cutoff:
+   whenever it returns, the clusters it returns are again carried with their cutoff-extended cores and NO cluster's
+   core overlaps the cutoff-extended core of a cluster before it in the returned order (all pairs, not only
+   neighbours in the sort order): the positive statement that replaces finding C03-K7 *)
+Lemma merge_group_separated key group res :
+  circular = true -> Forall ext_ok group -> mgroup key group = Ok res ->
+  exists kept, res = map fst kept /\ Forall ext_ok kept /\ fwd_apart kept /\
+    forall l1 x l2 y l3, kept = l1 ++ x :: l2 ++ y :: l3 -> overlap (p_core (fst y)) (snd x) = false.
+Proof.
+  intros Hc Hg H. rewrite merge_group_unfold in H.
+  assert (Hfin : forall kept, Forall ext_ok kept -> fwd_apart kept ->
+            exists kept0, map fst kept = map fst kept0 /\ Forall ext_ok kept0 /\ fwd_apart kept0 /\
+              forall l1 x l2 y l3, kept0 = l1 ++ x :: l2 ++ y :: l3 -> overlap (p_core (fst y)) (snd x) = false).
+  { intros kept He Hf. exists kept. split; [reflexivity|]. split; [exact He|]. split; [exact Hf|].
+    intros l1 x l2 y l3 E. exact (fwd_apart_split kept Hf l1 x l2 y l3 E). }
+  destruct group as [|a [|b t]].
+  - inversion H; subst. apply (Hfin []); [constructor|exact I].
+  - inversion H; subst. apply (Hfin [a]); [exact Hg|split; [constructor|exact I]].
+  - destruct (fold_left mstep (sort_by (fun a0 b0 => key a0 <? key b0) (a :: b :: t)) (Ok [])) as [done|k] eqn:Ef;
+      cbn [bind] in H; [|discriminate H].
+    destruct (if circular then ring_merge N circular rules (length done) (rev done) else Ok (rev done)) as [kept|k] eqn:Ek;
+      cbn [bind] in H; [|discriminate H].
+    inversion H; subst res.
+    destruct (second_pass_cases _ _ Ek) as [[_ Ek']|[Hf _]]; [|congruence].
+    assert (Hd : Forall ext_ok done).
+    { eapply fold_merge_ext_ok; [constructor| |exact Ef].
+      rewrite Forall_forall in *. intros x Hx. apply Hg.
+      eapply Permutation_in; [apply Permutation_sym; apply sort_perm|exact Hx]. }
+    assert (Hr : Forall ext_ok (rev done)).
+    { rewrite Forall_forall in *. intros x Hx. apply Hd. apply in_rev. exact Hx. }
+    apply Hfin.
+    + refine (ring_merge_forall ext_ok _ _ _ _ Hr Ek'). intros x y m ext _ _ _ He. exact He.
+    + apply (ring_merge_separated (length done) (rev done)); [rewrite rev_length; apply le_n|exact Ek'].
 Qed.
 
 Lemma merge_group_nil key res : mgroup key [] = Ok res -> res = [].
@@ -419,9 +631,6 @@ Proof.
   intro H. destruct group as [|a [|b t]]; [reflexivity|reflexivity|].
   cbn [length] in H. exfalso. apply le_S_n in H. inversion H.
 Qed.
-
-(* the core of the later one does not overlap the cutoff-extended location of the earlier one *)
-Definition apart (a b : proto * loc) : Prop := overlap (p_core (fst b)) (snd a) = false.
 
 Lemma fold_merge_apart : forall l a done,
   adjacent_all apart (a :: l) ->
@@ -443,24 +652,43 @@ Qed.
 
 Lemma merge_group_unchanged_adj key group :
   adjacent_all apart (sort_by (fun a b => key a <? key b) group) ->
+  (circular = true -> fwd_apart (sort_by (fun a b => key a <? key b) group)) ->
   mgroup key group = Ok (map fst (sort_by (fun a b => key a <? key b) group)).
 Proof.
-  intro H. rewrite merge_group_unfold. destruct group as [|a [|b t]]; [reflexivity|reflexivity|].
-  rewrite (fold_merge_apart_nil _ H). cbn [bind]. rewrite rev_involutive. reflexivity.
+  intros H Hc. rewrite merge_group_unfold. destruct group as [|a [|b t]]; [reflexivity|reflexivity|].
+  rewrite (fold_merge_apart_nil _ H). cbn [bind]. rewrite rev_involutive.
+  pose proof (fun Ht : circular = true =>
+                ring_merge_apart (length (rev (sort_by (fun a0 b0 => key a0 <? key b0) (a :: b :: t)))) _ (Hc Ht)) as Hrm.
+  clear Hc. destruct circular; [rewrite (Hrm eq_refl)|]; reflexivity.
+Qed.
+
+Lemma fwd_apart_of_split : forall l,
+  (forall l1 x l2 y l3, l = l1 ++ x :: l2 ++ y :: l3 -> apart x y) -> fwd_apart l.
+Proof.
+  induction l as [|x r IH]; intro H; [exact I|]. split.
+  - rewrite Forall_forall. intros y Hy. apply in_split in Hy. destruct Hy as (l2 & l3 & ->).
+    apply (H [] x l2 y l3). reflexivity.
+  - apply IH. intros l1 a l2 b l3 E. apply (H (x :: l1) a l2 b l3). rewrite E. reflexivity.
 Qed.
 
 (* (M3) if in the sorted group no cluster's core overlaps the cutoff-extended location of the cluster
-   before it, the group is returned as it is (every cluster with its rule, core and neighbourhood), in
-   sorted order - a rearrangement of the input *)
+   before it - on a circular record: of ANY cluster before it, the second pass comparing all pairs - the
+   group is returned as it is (every cluster with its rule, core and neighbourhood), in sorted order - a
+   rearrangement of the input *)
 Lemma merge_group_unchanged key group :
   let sorted := sort_by (fun a b => key a <? key b) group in
-  (forall l1 prev prev_loc cl loc l2, sorted = l1 ++ (prev, prev_loc) :: (cl, loc) :: l2 ->
-     overlap (p_core cl) prev_loc = false) ->
+  (forall l1 prev prev_loc l2 cl loc l3, sorted = l1 ++ (prev, prev_loc) :: l2 ++ (cl, loc) :: l3 ->
+     circular = true \/ l2 = [] -> overlap (p_core cl) prev_loc = false) ->
   mgroup key group = Ok (map fst sorted) /\ Permutation (map fst group) (map fst sorted).
 Proof.
   intros sorted H. split.
-  - apply merge_group_unchanged_adj. apply adjacent_all_of_split.
-    intros l1 [prev prev_loc] [cl loc] l2 E. unfold apart. cbn [fst snd]. eapply H. exact E.
+  - apply merge_group_unchanged_adj.
+    + apply adjacent_all_of_split.
+      intros l1 [prev prev_loc] [cl loc] l2 E. unfold apart. cbn [fst snd].
+      apply (H l1 prev prev_loc [] cl loc l2); [exact E|right; reflexivity].
+    + intro Hc. apply fwd_apart_of_split.
+      intros l1 [prev prev_loc] l2 [cl loc] l3 E. unfold apart. cbn [fst snd].
+      apply (H l1 prev prev_loc l2 cl loc l3); [exact E|left; exact Hc].
   - apply Permutation_map. apply sort_perm.
 Qed.
 End Merge.
@@ -550,3 +778,6 @@ Print Assumptions far_no_overlap_gap.
 Print Assumptions merge_step_overlap_shape.
 Print Assumptions merge_group_rule.
 Print Assumptions merge_step_far.
+Print Assumptions ring_merge_separated.
+Print Assumptions ring_once_none.
+Print Assumptions merge_group_separated.
